@@ -114,6 +114,7 @@ class BatchWorld:
         self.s_rand = ctx.stream('sql.rand')
         self.s_entropy = ctx.stream('entropy', 'prng')
         self.db_fault_rates = {}
+        self.armed = []  # (process-name prefix, callback): see arm_mid_transaction
         self.ack_lost_calls = []  # (procedure, args) of CALLs whose connection was lost after they had committed
         self.faults_on = True
         self.on_commit = []
@@ -159,7 +160,7 @@ class BatchWorld:
                 self.ack_lost_calls.append((proc, tuple(getattr(conn, 'cur_args', None) or ())))
 
         if site == 'pre':
-            for k in ('deadlock', 'lock_timeout', 'lost_conn'):
+            for k in ('deadlock', 'lock_timeout', 'lost_conn', 'fatal'):
                 r = rates.get(k)
                 if r and self.s_dbfault.chance(min(r * boost, 0.2)):
                     self.ctx.fault('db.' + k)
@@ -184,12 +185,34 @@ class BatchWorld:
                 return 'too_many_conn'
         return None
 
+    def arm_mid_transaction(self, proc_prefix, fn):
+        """call fn() (once) right after the next plain write statement that a connection of a process whose name starts
+        with proc_prefix executes INSIDE an open multi-statement transaction (not a CALL): the moment at which a
+        crash / shutdown / cancellation leaves a client-side transaction half done.  Places faults where in-flight
+        state exists instead of at a uniformly random instant."""
+        self.armed.append((proc_prefix, fn))
+
+    def _after_stmt(self, conn, query, kind):
+        if not self.armed or kind != 'write':
+            return
+        sess = conn.sess
+        if not (sess.in_txn and sess.journal) or query.lstrip()[:4].upper() == 'CALL':
+            return
+        proc = getattr(conn, 'proc', 'main')
+        for a in list(self.armed):
+            if proc.startswith(a[0]):
+                self.armed.remove(a)
+                self.ctx.probe('fault_placed_mid_transaction')
+                a[1]()
+                break
+
     def build_db(self):
         loop = asyncio.get_running_loop()
         epoch = self.epoch
         eng = load_batch_schema(benv.shim.REPO, rand=self.s_rand.flt, clock=lambda: epoch + loop.time())
         self.eng = eng
         self.server = dbdriver.Server(eng, latency=self._db_latency, fault=self._db_fault)
+        self.server.after_stmt = self._after_stmt
         dbdriver.CURRENT_SERVER[0] = self.server
         eng.commit_hooks.append(self._commit_hook)
         self._seed()
